@@ -1,3 +1,64 @@
-import ShVerif.Model.C20
+import ShVerif.Proofs.C20Eval
+/-
+  C20 helper lemmas, assembled: C20Bin (wrap-around, intPow, binArit), C20Num (atoi_spec),
+  C20Misc (status, panics, assignment operators), C20Lex (texts of variable values),
+  C20Eval (model = BashArith on the domain).
+-/
 namespace ShVerif.C20
+
+/-- level of the outermost construct in the parser's chain (15 = value) -/
+def exprLevel : Expr → Nat
+  | .word _ => 15
+  | .paren _ => 15
+  | .unary op _ _ => if op = .inc ∨ op = .dec then 15 else 14
+  | .binary op _ _ =>
+    match op with
+    | .comma => 0
+    | .ternQuest => 2
+    | .orL | .xorBool => 3
+    | .andL => 4
+    | .or => 5
+    | .xor => 6
+    | .and => 7
+    | .eql | .neq => 8
+    | .lss | .gtr | .leq | .geq => 9
+    | .shl | .shr => 10
+    | .add | .sub => 11
+    | .mul | .quo | .rem => 12
+    | .pow => 13
+    | _ => 1
+
+mutual
+/-- `PrecOK e`: every operand sits at a level of the chain that needs no parentheses. -/
+def PrecOK : Expr → Bool
+  | .word _ => true
+  | .paren x => PrecOK x
+  | .unary op post x =>
+    if op = .inc ∨ op = .dec then isNameWord x
+    else !post && PrecOK x && decide (14 ≤ exprLevel x)
+  | .binary op x y =>
+    if op = .assgn ∨ (assignOp op).isSome then
+      isNameWord x && PrecOK y && decide (1 ≤ exprLevel y)
+    else if op = .ternQuest then PrecOK x && decide (3 ≤ exprLevel x) && PrecOKColon y
+    else if op = .pow then
+      PrecOK x && PrecOK y && decide (14 ≤ exprLevel x) && decide (13 ≤ exprLevel y)
+    else if op = .ternColon ∨ op.sym = none then false
+    else
+      PrecOK x && PrecOK y && decide (exprLevel (.binary op x y) ≤ exprLevel x)
+        && decide (exprLevel (.binary op x y) + 1 ≤ exprLevel y)
+
+def PrecOKColon : Expr → Bool
+  | .binary op t f => op == .ternColon && PrecOK t && PrecOK f && decide (2 ≤ exprLevel f)
+  | _ => false
+end
+
+theorem cycle_recursion :
+    (specEval 3000 bashMaxDepth
+      { get := fun n => match [(([120] : Bytes), ([120] : Bytes))].lookup n with
+          | some v => v | none => []
+        ro := fun _ => false } (.word [120])).1 = .err .recursion := by
+  rw [cycle_recursion_gen _ (by decide) bashMaxDepth 3000 (by decide)]
+
+theorem prod_eta {α β : Type} (p : α × β) : p = (p.1, p.2) := by cases p; rfl
+
 end ShVerif.C20
